@@ -32,8 +32,13 @@ HEADERS_INIT = Contract(
         "single": "implies(not is_none(headers), forall(i, 0, len(headers), implies(unique_at(i), "
                   "self._dict[lower(headers[i][0])] == headers[i][1])))",
         "LOWER": "LOWER(self._dict)",
+        # names and values without CR / LF / NUL give a mapping without them (also where values are folded)
+        "clean_in_clean_out": "implies(not is_none(headers) and forall(i, 0, len(headers), not unclean(headers[i][0]) and not unclean(headers[i][1])), "
+                              "CLEAN(self._dict))",
     },
+    aux_ensures=("clean_in_clean_out",), aux_invariants={1: (1,)}, char_hints=("\n", "\r", "\0"),
     invariants={1: [
+        "implies(forall(i, 0, IDX, not unclean(SEQ[i][0]) and not unclean(SEQ[i][1])), CLEAN(store))",
         "forall((k, Str), has(store, k) == exists(i, 0, IDX, lower(SEQ[i][0]) == k))",
         "forall(i, 0, IDX, implies(forall(j, 0, IDX, implies(j != i, lower(SEQ[j][0]) != lower(SEQ[i][0]))), "
         "store[lower(SEQ[i][0])] == SEQ[i][1]))",
@@ -81,10 +86,64 @@ HEADERS_INIT_MAP = Contract(
         "copy.values": "forall((k, Str), implies(has(headers._dict, k), self._dict[k] == headers._dict[k]))",
         "LOWER": "LOWER(self._dict)",
     },
-    invariants=HEADERS_INIT.invariants,
+    invariants=HEADERS_INIT.invariants, aux_invariants=HEADERS_INIT.aux_invariants, char_hints=HEADERS_INIT.char_hints,
     frame_check=False, assumptions=["A-lower", "A-abc-1"],
     notes="constructor given another Headers object (typing.Mapping branch): .items() is the collections.abc mixin",
 )
+
+# ----- MutableHeaders.__init__: the constructor validates what it stores (since fix: constructor-supplied headers)
+def dict_items_stub(ev, args, kwargs, node):
+    """self._dict.items(): one (k, d[k]) pair per key of the dict (A-dict-1)"""
+    from pyvc.builtins import mk_quant, S, I
+    USED.add("A-dict-1")
+    st = ev.st
+    m = st.obj(st.obj(ev.frame.lookup("self")).fields["_dict"])
+    lo = st.fresh_listobj(Tup(Str, Str), "ditems")
+    n = lo.length
+    st.assume(n >= 0)
+    kc, vc = lo.cols
+    i = z3.Int(st.run.fresh_name("di_i"))
+    st.assume(mk_quant("forall", [i], z3.Implies(z3.And(0 <= i, i < n), z3.And(m.has[kc[i]], vc[i] == m.val[0][kc[i]])),
+                       patterns=[kc[i]]))
+    pos = z3.Function(st.run.fresh_name("ditems.pos"), S, I)
+    k = z3.String(st.run.fresh_name("di_k"))
+    st.assume(mk_quant("forall", [k], z3.Implies(m.has[k], z3.And(0 <= pos(k), pos(k) < n, kc[pos(k)] == k)), patterns=[m.has[k]]))
+    return st.alloc(lo)
+
+
+def _super_init(ev, args, kwargs, node):
+    """super().__init__(headers): Headers.__init__ through its contracts (pair list / None, or another header mapping)"""
+    from pyvc.contract import apply_contract
+    a = [ev.frame.lookup("self")] + list(args)
+    c = HEADERS_INIT_MAP if HEADERS_INIT_MAP.applies(ev, a, kwargs) else HEADERS_INIT
+    return apply_contract(ev, c, a, kwargs, node)
+
+
+def _mh_init(kind):
+    base = HEADERS_INIT if kind == "pairs" else HEADERS_INIT_MAP
+    params = {"self": ObjT(MH), "headers": Opt(PAIRS)} if kind == "pairs" else {"self": ObjT(MH), "headers": ObjT(HD, _dict=Map(Str, Str))}
+    return Contract(
+        id="MutableHeaders.__init__[%s]" % kind, file=D, qualname="MutableHeaders.__init__", props=["C05", "C13", "C20"],
+        params=params, defs=HDEFS, requires=list(base.requires),
+        applies=(lambda ev, args, kwargs: not HEADERS_INIT_MAP.applies(ev, args, kwargs)) if kind == "pairs" else HEADERS_INIT_MAP.applies,
+        init_fields={"_dict": Map(Str, Str)},
+        stubs={"super().__init__": _super_init, "self._dict.items": dict_items_stub},
+        # only when a given name or value holds CR / LF / NUL (callers that pass clean pairs never see it)
+        raises={"ValueError": "not is_none(headers) and exists(i, 0, len(headers), unclean(headers[i][0]) or unclean(headers[i][1]))"
+                if kind == "pairs" else "not CLEAN(headers._dict)"},
+        ensures=dict(base.ensures, **{
+            # whatever the constructor is given: a response's header mapping never holds CR, LF or NUL
+            "clean": "CLEAN(self._dict)",
+        }),
+        invariants={1: ["forall(i, 0, IDX, not unclean(SEQ[i][0]) and not unclean(SEQ[i][1]))"]},
+        frame_check=False, assumptions=["A-lower", "A-dict-1"],
+        notes="constructor of the response header mapping: Headers.__init__ through its contract, then every stored name and "
+              "value is checked like in __setitem__ (raises ValueError otherwise)",
+    )
+
+
+MH_INIT_PAIRS = _mh_init("pairs")
+MH_INIT_MAP = _mh_init("mapping")
 
 BASE_INIT = Contract(
     id="BaseResponse.__init__", file=R, qualname="BaseResponse.__init__", props=["C05"],
@@ -126,7 +185,7 @@ W_RESPONSE_CALL = Contract(
 
 
 def register(reg):
-    for c in (HEADERS_INIT, HEADERS_INIT_MAP, BASE_INIT, A_RESPONSE_CALL, W_RESPONSE_CALL):
+    for c in (HEADERS_INIT, HEADERS_INIT_MAP, MH_INIT_PAIRS, MH_INIT_MAP, BASE_INIT, A_RESPONSE_CALL, W_RESPONSE_CALL):
         reg.add(c)
     reg._opaque_index["StatusMap"] = c02.status_index
     register2(reg)
@@ -218,7 +277,9 @@ def redirect(file_, iface):
         params={"self": ObjT(file_ + ":RedirectResponse"), "url": Str, "status_code": Int, "headers": Opt(PAIRS)},
         defs=HDEFS, stubs={"iri_to_uri": iri_stub}, ufuncs={"iri_to_uri": ([Str], Str)},
         frame_check=False,
-        raises={},   # the escaped target can never be rejected by the header mapping: escaping, not an error
+        # the escaped target can never be rejected by the header mapping (escaping, not an error): only the caller's own
+        # extra headers can be, when they hold CR / LF / NUL
+        raises={"ValueError": "not is_none(headers) and exists(i, 0, len(headers), unclean(headers[i][0]) or unclean(headers[i][1]))"},
         ensures={"location": "has(self.headers._dict, 'location') and self.headers._dict['location'] == iri_to_uri(url)",
                  "location.clean": "not unclean(self.headers._dict['location'])",
                  "status": "self.status_code == status_code"},
